@@ -47,9 +47,11 @@ def preamble(tree, sel, variant, order_seed, tu, repeat):
 
 
 COMMON_HEAD = r"""
+#include <chrono>
 #include <cstdint>
 #include <cstdio>
 #include <cstring>
+#include <ratio>
 #include <type_traits>
 
 int other_tu_value();
@@ -88,6 +90,21 @@ void pair(const char *a, const char *b) {
     common<A, B>(std::integral_constant<bool, HasSameDimension<A, B>::value>{});
 }
 
+// Units of time additionally go through the chrono interop with their own exact period.
+template <typename U>
+void chrono_for(std::true_type) {
+    using namespace au;
+    constexpr auto r = unit_ratio(U{}, Seconds{});
+    using P = std::ratio<get_value<std::intmax_t>(numerator(r)), get_value<std::intmax_t>(denominator(r))>;
+    const auto q = as_quantity(std::chrono::duration<int, P>{3});
+    const auto qd = as_quantity(std::chrono::duration<double, P>{1.5});
+    const auto q64 = as_quantity(std::chrono::duration<std::int64_t, P>{2});
+    std::printf("  chrono [%s] [%s] [%s] %d %d\n", unit_label(decltype(q)::unit), unit_label(decltype(qd)::unit), unit_label(decltype(q64)::unit),
+                int(q == make_quantity<U>(3)), int(as_chrono_duration(make_quantity<U>(7)).count()));
+}
+template <typename U>
+void chrono_for(std::false_type) {}
+
 template <typename U>
 void unit(const char *name) {
     using namespace au;
@@ -107,6 +124,7 @@ void unit(const char *name) {
     const Quantity<U, std::uint16_t> u16 = make_quantity<U>(std::uint16_t{65535});
     std::printf("  sub %d %d %zu %zu\n", int((-s8).in(U{})), int((+u16).in(U{})), sizeof(s8),
                 sizeof(u16));
+    chrono_for<U>(std::integral_constant<bool, HasSameDimension<U, Seconds>::value>{});
 }
 
 template <typename C>
